@@ -13,6 +13,7 @@ get_value_c.  With a non-zero seed results with native draw types are reproducib
 from __future__ import annotations
 
 import math
+import json
 import sys
 
 sys.path.insert(0, '/verif')
@@ -117,6 +118,48 @@ def replay_integrand(rec):
     return dict(mismatches=out, n=n)
 
 
+def replay_registry(h):
+    """one history of DrawRegistry.tla on ONE Database object"""
+    import numpy as np
+    import pandas as pd
+    import biogeme.database as db
+    import biogeme.expressions as ex
+
+    xs = [1.0, 2.0, 3.0]
+    d = db.Database('reg', pd.DataFrame({'x': xs}))
+
+    def gen(code):
+        def g(sample_size, number_of_draws):
+            return np.array([[float(code + ((2 * u + r) % 5)) for r in range(number_of_draws)] for u in range(sample_size)])
+        return g
+
+    # the registry at the start: what the first steps imply (a type is registered before it is evaluated)
+    first = {}
+    for s_ in h['steps']:
+        if s_['op'] == 'evaluate':
+            first.setdefault(s_['type'], s_['code'])
+        else:
+            first.setdefault(s_['type'], None)
+    reg = {t: (c if c is not None else 0) for t, c in first.items()}
+    d.set_random_number_generators({t: (gen(c), f'series {c}') for t, c in reg.items()})
+    out = []
+    n = 0
+    for k, s_ in enumerate(h['steps']):
+        if s_['op'] == 'register':
+            reg[s_['type']] = s_['code']
+            d.set_random_number_generators({t: (gen(c), f'series {c}') for t, c in reg.items()})
+            continue
+        f = ex.MonteCarlo(ex.bioDraws('z', s_['type']) * ex.Variable('x'))
+        got = [float(v) for v in f.get_value_c(database=d, number_of_draws=s_['R'], prepare_ids=True)]
+        n += 1
+        want = [w / s_['R'] for w in s_['want']]
+        if any(abs(g - w) > 1e-12 * max(1.0, abs(w)) for g, w in zip(got, want)) or len(got) != len(want):
+            out.append(dict(what='Monte-Carlo mean after a change of the registered generator', step=k, got=got, want=want,
+                            history=[(t['op'], t['type'], t['code'], t['R']) for t in h['steps'][: k + 1]]))
+            break
+    return dict(mismatches=out, n=n)
+
+
 def reproducible(seed):
     """native draw types: the same non-zero seed gives the same values"""
     import pandas as pd
@@ -199,6 +242,23 @@ def body(chk: check.Check):
         for m in val['mismatches']:
             chk.violation('inside:value', {**dict(formula=desc, ops=rec['ops']), **m}, match=dict(kind='value', features=exprenv.features(rec['ops'], rec['root'], len(mpool.leaves))))
     chk.extra['formulas_with_the_operator_inside'] = len(inside)
+    # histories on one data set: the generator of a type is replaced between evaluations
+    rcfg = ('SPECIFICATION Spec\nCONSTANTS\n Types = {"TA", "TB"}\n Codes = {1, 7}\n Rs = {2, 3}\n XVals <- G_X\n MaxSteps = %d\n'
+            'INVARIANT Memoryless\nINVARIANT EmitInv\n' % (4 if quick else 5))
+    rres = tlc.run('RegGen', rcfg, extra_modules={'RegGen': '---- MODULE RegGen ----\nEXTENDS DrawRegistry\nG_X == <<1, 2, 3>>\n====\n'}, workers='auto', timeout=900)
+    chk.add_tlc('DrawRegistry: histories of registrations and evaluations on one data set', rres)
+    hs = [h for h in rres.emitted if isinstance(h, dict) and 'steps' in h]
+    if not hs:
+        raise tlc.MachineryError('DrawRegistry emitted no history')
+    for h, (st, val) in zip(hs, par.pmap(replay_registry, hs, chunk=25, timeout=900)):
+        chk.replayed += 1
+        if st != 'ok':
+            chk.violation(f'registry:{st}', dict(history=h['steps'], error=val), match=dict(kind='exception'))
+            continue
+        chk.count(('registry', json.dumps(h['steps'], sort_keys=True)), val['n'])
+        for m in val['mismatches']:
+            chk.violation('registry:' + m['what'][:50], m, match=dict(kind='value', family='registry'))
+    chk.extra['registry_histories'] = len(hs)
     results = par.pmap(replay_calc, cases, chunk=25, timeout=900)
     for case, (st, val) in zip(cases, results):
         chk.replayed += 1
